@@ -47,7 +47,8 @@ def gen_cases(ctx, thorough):
             for k, dq in enumerate(ds):
                 blocks = [(60 + k, [("esc", 1, 2 + k, 30)])] + [(100, [])] * 5
                 mbs.append({"kind": "coded", "type": S.INTRAQ, "cbp": [1, 0, 0, 0, 0, 0], "dquant": dq, "blocks": blocks})
-            cases.append((idx, 0 if mode == "std" else 1, [D(mbs_picture(mode, q, mbs).to_bytes())]))
+            pre = [D(x) for x in picgen.history_prefix(rng, mode, 16 * len(mbs), 16)] if idx % 4 == 1 else []   # the quantizer in force starts from PQUANT whatever came before
+            cases.append((idx, 0 if mode == "std" else 1, pre + [D(mbs_picture(mode, q, mbs).to_bytes())]))
             descs[idx] = {"mode": mode, "ptype": "I", "w": 16 * len(mbs), "h": 16, "quant": q, "tr": 3, "mbs": mbs, "what": "dquant-sequence"}
             idx += 1
     # (2) levels in every escape form at a few positions, all quantizers
@@ -99,7 +100,7 @@ def run(ctx):
     nontriv = set()
     for (idx, o, ops) in cases:
         d = descs[idx]
-        t = parse_tok(io[idx][0])
+        t = parse_tok(io[idx][-1])
         if d["what"] == "intradc" and d["code"] in (0, 128):
             if not t["cls"].startswith("err"):
                 ctx.violation({"kind": "picture", "class_key": "intradc-reject", "options": o, "ops": ops, "spec": "INTRADC codes 0 and 128 are rejected",
